@@ -125,10 +125,16 @@ def run_unit(unit, repo, workdir, rlimit=None, seed=None, extra=None):
     ur.assumptions = scan_assumptions(ur.gen_lines)
     cmd = ['verus', gen, '--output-json', '--time', '--triggers-mode', 'silent',
            '--error-format=json', '--multiple-errors', '20', '--num-threads', '8']
+    unit_cfg = json.load(open(unit_json))
+    for m in unit_cfg.get('verify_modules', []):
+        if m in ('', 'crate'):
+            cmd += ['--verify-root']
+        else:
+            cmd += ['--verify-only-module', m]
     if rlimit:
         cmd += ['--rlimit', str(rlimit)]
     if seed is not None:
-        cmd += ['-V', 'smt-option=smt.random_seed=%d' % seed, '-V', 'smt-option=sat.random_seed=%d' % seed]
+        cmd += ['--smt-option', 'smt.random_seed=%d' % seed, '--smt-option', 'sat.random_seed=%d' % seed]
     if extra:
         cmd += extra
     ur.cmd = ' '.join(cmd)
@@ -203,8 +209,20 @@ def run_unit(unit, repo, workdir, rlimit=None, seed=None, extra=None):
 def locate_all(ur):
     info = ur.info
     gen_base = os.path.basename(ur.gen_path)
-    canary_lines = {s['canary_line'] for s in info['sections']}
+    vm = None
+    try:
+        vm = json.load(open(os.path.join(VERIF, 'units', ur.name + '.json'))).get('verify_modules')
+    except Exception:
+        pass
+    def in_scope(s):
+        if vm is None:
+            return True
+        m = s['mod'][len('crate'):].lstrip(':')
+        return m in vm or (m == '' and 'crate' in vm)
+    canary_lines = {s['canary_line'] for s in info['sections'] if in_scope(s)}
     ur.canaries_expected = len(canary_lines)
+    for s in info['sections']:
+        s['in_scope'] = in_scope(s)
     for d in ur.diags:
         locate(d, info, gen_base, ur.gen_lines)
         if d.is_canary:
